@@ -89,17 +89,6 @@ Aliased == /\ "z" \in DOMAIN Ev
               \/ ("x" \in DOMAIN Ev /\ "u" \in DOMAIN Ev /\ Ev.x = Ev.u)
               \/ ("y" \in DOMAIN Ev /\ "u" \in DOMAIN Ev /\ Ev.y = Ev.u)
 
-(* receiver result versus the wanted outcome w *)
-MisZ(w) ==
-  IF Ev.out \notin {"ok", "nan"} THEN {<<l, "C04", "panic">>}
-  ELSE IF Ev.out # w.out THEN {<<l, "C04", "outcome">>}
-  ELSE LET g == Got(Ev.z)
-       IN (IF w.out = "ok" /\ "value" \notin w.free /\ ~SameValue(g, w.d)
-           THEN {<<l, pp, "value">> : pp \in w.pid} \cup (IF Aliased THEN {<<l, "C10", "value">>} ELSE {}) ELSE {})
-          \cup (IF w.out = "ok" /\ "acc" \notin w.free /\ g.acc # w.d.acc THEN {<<l, pp, "acc">> : pp \in AccPid(w)} ELSE {})
-          \cup (IF "prec" \notin w.free /\ g.prec # w.d.prec THEN {<<l, "C09", "prec">>} ELSE {})
-          \cup (IF "mode" \notin w.free /\ g.mode # w.d.mode THEN {<<l, "C09", "mode">>} ELSE {})
-
 (* the property that owns an operation: a panic or a malformed result there also contradicts that property's text *)
 HomePid(op) ==
   CASE op \in {"GobEncode", "GobDecode", "GobMutate", "GobRoundTrip", "GobStream"} -> {"C17"}
@@ -114,6 +103,23 @@ HomePid(op) ==
     [] op = "Sqrt" -> {"C05"}
     [] op = "FMA" -> {"C03"}
     [] OTHER -> {}
+
+(* properties whose own text also fixes the receiver's precision and mode after the call *)
+AttrPid == IF Ev.op \in {"GobDecode", "GobMutate", "GobRoundTrip", "GobStream", "SetFloat64", "SetFloat", "SetInt", "SetInt64", "SetUint64", "SetRat",
+                         "Parse", "SetString", "UnmarshalText", "UnmarshalJSON", "ParseDecimal", "Scan", "SetBitsExp", "SetBitsExpSelf", "SetMantExp", "MantExp"}
+           THEN HomePid(Ev.op) ELSE {}
+
+(* receiver result versus the wanted outcome w *)
+MisZ(w) ==
+  IF Ev.out \notin {"ok", "nan"} THEN {<<l, "C04", "panic">>}
+  ELSE IF Ev.out # w.out THEN {<<l, "C04", "outcome">>}
+  ELSE LET g == Got(Ev.z)
+       IN (IF w.out = "ok" /\ "value" \notin w.free /\ ~SameValue(g, w.d)
+           THEN {<<l, pp, "value">> : pp \in w.pid} \cup (IF Aliased THEN {<<l, "C10", "value">>} ELSE {}) ELSE {})
+          \cup (IF w.out = "ok" /\ "acc" \notin w.free /\ g.acc # w.d.acc THEN {<<l, pp, "acc">> : pp \in AccPid(w)} ELSE {})
+          \cup (IF "prec" \notin w.free /\ g.prec # w.d.prec THEN {<<l, pp, "prec">> : pp \in {"C09"} \cup AttrPid} ELSE {})
+          \cup (IF "mode" \notin w.free /\ g.mode # w.d.mode THEN {<<l, pp, "mode">> : pp \in {"C09"} \cup AttrPid} ELSE {})
+
 
 (* state invariants evaluated on every event; `writes` = registers the call may change *)
 Common(writes) ==
@@ -403,7 +409,7 @@ TGobRoundTrip ==
 TGobStream ==
   /\ IsEv("GobStream")
   /\ LET x == Pre(Ev.x)  z == Pre(Ev.z)
-         w == IF z.prec = 0 THEN Outcome("ok", x, {}, {"C17"}) ELSE OkFree(SetLike(x.neg, x, z.prec, z.mode), z.prec, z.mode, {"C17"}, {"acc"})
+         w == IF z.prec = 0 THEN Outcome("ok", x, {}, {"C17"}) ELSE Ok(SetLike(x.neg, x, z.prec, z.mode), z.prec, z.mode, {"C17"})
      IN StepX(w, {"GobStream"}, IF Ev.out = "ok" /\ Ev.ret.err THEN {<<l, "C17", "rejected">>} ELSE {})
 
 (***************************************************************************)
@@ -451,7 +457,8 @@ TKernel ==
                                 ELSE (IF okOf(Ev.ret.asm) THEN {} ELSE {<<l, "C07", "asm">>})
                                      \cup (IF okOf(Ev.ret.go) THEN {} ELSE {<<l, "C07", "go">>})
                                      \cup (IF Ev.ret.asm = Ev.ret.go THEN {} ELSE {<<l, "C07", "asm-vs-go">>}), "")
-        /\ cov' = Bump({"K:" \o KName, "K:" \o KName \o ":" \o (IF scalar THEN "scalar" ELSE IF Ev.zo = Ev.xo THEN "inplace" ELSE "disjoint"),
+        /\ cov' = Bump({"K:" \o KName, "K:" \o KName \o ":" \o (IF scalar THEN "scalar" ELSE IF Ev.zo = Ev.xo THEN "inplace"
+                                                            ELSE IF Ev.zo >= Ev.xo + Ev.n \/ Ev.xo >= Ev.zo + Ev.n THEN "disjoint" ELSE "overlap"),
                          "K:" \o KName \o ":n" \o LenClass(Ev.n)})
 (***************************************************************************)
 (* Concurrency (C18): the events of a Par block are the goroutines' own    *)
